@@ -851,8 +851,50 @@ func ruleC11Rooted(p *Prog, a *Anchors, r *Report) {
 		}
 		key := p.FuncName(f) + ":uses-referrer"
 		base := f.Params[1]
-		if len(*base.Referrers()) == 0 {
-			r.Bad(key, p.Pos(f.Pos()), "%s never reads its `base` parameter: names are not resolved relative to the referring template, unlike in the other loaders ({%% include \"y.html\" %%} in a/x.html gets the root's y.html, and a file that only exists next to the referrer cannot be included)", p.FuncName(f))
+		// the referring template has to take part in a RESULT (reading it in a test alone resolves nothing)
+		flows := false
+		var dep func(v ssa.Value, depth int) bool
+		dep = func(v ssa.Value, depth int) bool {
+			if v == ssa.Value(base) {
+				return true
+			}
+			if depth > 6 {
+				return false
+			}
+			switch x := v.(type) {
+			case *ssa.Call:
+				for _, arg := range x.Common().Args {
+					if dep(arg, depth+1) {
+						return true
+					}
+				}
+			case *ssa.Phi:
+				for _, e := range x.Edges {
+					if dep(e, depth+1) {
+						return true
+					}
+				}
+			case *ssa.BinOp:
+				return dep(x.X, depth+1) || dep(x.Y, depth+1)
+			case *ssa.Slice:
+				// the variadic slice of Join(...): its elements
+				for _, el := range varargValues(x) {
+					if el != nil && dep(el, depth+1) {
+						return true
+					}
+				}
+			case *ssa.Extract:
+				return dep(x.Tuple, depth+1)
+			}
+			return false
+		}
+		for _, ret := range returnsOf(f) {
+			if dep(ret.Results[0], 0) {
+				flows = true
+			}
+		}
+		if !flows {
+			r.Bad(key, p.Pos(f.Pos()), "no result of %s depends on its `base` parameter: names are not resolved relative to the referring template, unlike in the other loaders ({%% include \"y.html\" %%} in a/x.html gets the root's y.html, and a file that only exists next to the referrer cannot be included)", p.FuncName(f))
 		} else {
 			r.OK(key, p.Pos(f.Pos()), "the referring template takes part in the resolution")
 		}
